@@ -20,3 +20,6 @@ def ev_probe(w, ev):
     w.stats['probe.' + ev['name']] += 1
     w.touch_readers(slot)
     return fn(w, ev, slot)
+
+
+from . import probes_io  # noqa: E402,F401  (registers probes)
